@@ -25,6 +25,9 @@ impl Report {
     pub fn count(&mut self, key: &str) {
         *self.distribution.entry(key.to_string()).or_insert(0) += 1;
     }
+    pub fn count_n(&mut self, key: &str, n: u64) {
+        *self.distribution.entry(key.to_string()).or_insert(0) += n;
+    }
     pub fn sample(&mut self, v: Value) {
         if self.samples.len() < 8 {
             self.samples.push(v);
